@@ -16,6 +16,11 @@ from hypothesis import strategies as st
 from tqv import gen, ref
 from tqv.core import SubCheck, req
 
+# caller-owned arrays handed to the library must come back unchanged (see tqv/purity.py)
+from tqv.purity import install as _install_purity  # noqa: E402
+
+_install_purity('toqito.channels', 'toqito.helper')
+
 PROPERTY = "C02"
 RULE = (
     "Cases are drawn by Hypothesis: number of subsystems n in 1..5, local dimensions (1 allowed) drawn against a size "
